@@ -93,10 +93,10 @@ Definition stub_mesh_eqb (a b : list tri) : bool := list_eqb tri_eqb a b.
 
 (* ------------------------------------------------------------------ tolerances: filled in from the source *)
 (* the executable Tols instance is built in the generated cases file from Gen.GenWrapTol *)
-Definition mkTols (c1 c2 c3 c4 c5 c6 c7 c8 c9 c10 c11 c12 : Qc) : @Tols QcOps :=
+Definition mkTols (c1 c2 c3 c4 c5 c6 c7 c8 c9 c10 c11 c12 c13 : Qc) : @Tols QcOps :=
   {| t_cub_surf := c1; t_cyl_hull_r := c2; t_cyl_hull_a := c3; t_cyl_base_r := c4; t_cyl_base_a := c5;
      t_seg_close_r := c6; t_seg_close_a := c7; t_seg_r_lo := c8; t_seg_r_hi := c9; t_seg_z_lo := c10;
-     t_seg_z_hi := c11; t_cir_sing := c12 |}.
+     t_seg_z_hi := c11; t_cir_sing := c12; t_cir_sing_z := c13 |}.
 
 (* ------------------------------------------------------------------ cases *)
 Definition eps : Qc := q 1 1073741824.
